@@ -114,8 +114,8 @@ func (r *RoundRobin) Select(pool HostPool, request *http.Request) *UpstreamHost 
 	defer r.mutex.Unlock()
 	// Return next available host
 	for i := uint32(0); i < poolLen; i++ {
-		r.robin++
-		host := pool[r.robin%poolLen]
+		r.robin = (r.robin + 1) % poolLen
+		host := pool[r.robin]
 		if host.Available() {
 			return host
 		}
